@@ -202,4 +202,13 @@ func init() {
 		Assumptions: []string{"process-crash model (written data survives)", "bit sizes above 24 are outside the stated configurations; 24 is sampled rarely (128 MiB table)"},
 		Quick:       45, Thorough: 900, Real: commonReal, Simulated: commonSim,
 	}
+	Props["C10"] = &PropSpec{
+		ID: "C10", Level: "fault_enumeration",
+		Technique: "deterministic simulation: legacy-format stores written by the harness from a generated model, upgraded by the real OpenStore on the simulated disk; crash-point / torn-write / nested-crash enumeration over every mutating file operation of the upgrading open with resume-until-success",
+		Rule: "one case = a legacy store generated from a put/remove history over 1-9 keys: version-2 single-file index (own shortest-unique-prefix record lists, stale record lists superseded later in the log), unversioned single-file primary whose dead records are deleted-marked, pending on the legacy freelist, or both, optionally index entries pointing past the end of the primary; opened with target file-size limits from 16 bytes (one record per chunk) to 1 GiB (single chunk) and equal or different index bits (upgrade + re-bucketing); oracle: contents = model exactly (all keys, iteration), past-the-end entries dropped, fsck clean, a second open shows the same; crash class (50%): every mutating op of the upgrading open is a crash point (quick: seeded sample of 30 incl. torn appends, 15% with a second crash in the resuming open; thorough: all), the open that finally completes must show the model and pass fsck; " +
+			"non-trivial = an upgrade completed for a legacy store holding at least one dead record or more than one chunk, or crash images were resumed; distinct = distinct (plan hash, schedule hash)",
+		Nontrivial:  func(o *RunOut) bool { return o.Probes["upgraded"] > 0 },
+		Assumptions: []string{"legacy formats as read by store/index/upgrade.go and store/primary/multihash/upgrade.go (documented in DESIGN.md Appendix D)", "process-crash model"},
+		Quick:       45, Thorough: 900, Real: commonReal, Simulated: commonSim,
+	}
 }
